@@ -312,57 +312,152 @@ theorem find_of_nodup_names : ∀ (bounds : List (String × SExpr × SExpr)) (b 
       · exact absurd rfl hc
       · exact find_of_nodup_names bounds b hnd.2 h
 
-/-- the `ReduceOp` stage is sound under the side conditions `reduceSideOK` -/
-theorem tryReduce_sound (e : SExpr) (shape : Shape) (env : List (String × Arr Val)) (h : HLO)
-    (hr : tryReduce e shape (shapesOf env) = some h)
-    (hside : reduceSideOK e (shapesOf env) = true) (i : Idx) (hi : inB shape i = true) :
-    (hloDenote h shape env).get i = eval (idxEnv i env) e := by
+theorem filter_length_one_of_nodup : ∀ (l : List (Nat × String)) (v : String),
+    (l.map (·.2)).Nodup → v ∈ l.map (·.2) → (l.filter (·.2 == v)).length = 1
+  | [], _, _, h => by simp at h
+  | x :: l, v, hnd, h => by
+    simp only [List.map_cons, List.nodup_cons] at hnd
+    by_cases hx : x.2 = v
+    · have hnone : l.filter (·.2 == v) = [] := by
+        rw [List.filter_eq_nil_iff]
+        intro y hy hyv
+        apply hnd.1
+        rw [hx]
+        exact List.mem_map.mpr ⟨y, hy, by simpa using hyv⟩
+      rw [List.filter_cons_of_pos (by simpa using hx), hnone]; rfl
+    · rw [List.filter_cons_of_neg (by simpa using hx)]
+      apply filter_length_one_of_nodup l v hnd.2
+      simp only [List.map_cons, List.mem_cons] at h
+      rcases h with h | h
+      · exact absurd h.symm hx
+      · exact h
+
+/-- what a successful reduction stage has established -/
+theorem tryReduce_inv (e : SExpr) (shape : Shape) (env : List (String × Arr Val)) (h : HLO)
+    (hr : tryReduce e shape (shapesOf env) = some h) :
+    ∃ op bounds a ix arr,
+      e = nest op bounds (.sub a ix) ∧ lookupEnv env a = some arr ∧
+      normalReduceAxes bounds arr.shape shape ix 0 0 = some (varPositions ix 0) ∧
+      ix.length = arr.shape.length ∧ (bounds.map (·.1)).Nodup ∧
+      (∀ b ∈ bounds, ((varPositions ix 0).filter (·.2 == b.1)).length = 1) ∧
+      h = .reduce op a (bounds.flatMap fun b => (varPositions ix 0).filter (·.2 == b.1)) := by
   cases e with
   | reduce op v lo hi' body =>
     have hpeel := peel_spec op (.reduce op v lo hi' body)
     simp only [tryReduce] at hr
-    simp only [reduceSideOK] at hside
-    generalize peelReduce op (.reduce op v lo hi' body) = r at hr hside hpeel
+    generalize peelReduce op (.reduce op v lo hi' body) = r at hr hpeel
     obtain ⟨bounds, inner⟩ := r
-    simp only at hr hside hpeel
+    simp only at hr hpeel
     cases inner with
     | sub a ix =>
-      simp only [lookupShape_shapesOf] at hr hside
+      simp only [lookupShape_shapesOf] at hr
       cases hl : lookupEnv env a with
       | none => simp [hl] at hr
       | some arr =>
-        simp only [hl, Option.map_some, Bool.and_eq_true, decide_eq_true_eq, List.all_eq_true,
-          beq_iff_eq] at hr hside
-        obtain ⟨⟨hnd, honce⟩, hrank⟩ := hside
-        obtain ⟨axes, hax, rfl⟩ := Option.map_eq_some_iff.mp hr
-        have haxes := normalReduceAxes_eq bounds arr.shape shape ix 0 0 axes hax
-        subst haxes
-        have hbnd := normalReduceAxes_bounds bounds arr.shape shape ix 0 0 _ hax
-        have hmain := reduce_main op arr a env hl ix i shape hi bounds _ hax hrank bounds []
-          (fun b hb => by
-            have hlen := honce b hb
-            obtain ⟨⟨d, w⟩, hf⟩ := List.length_eq_one_iff.mp hlen
-            have hmem : (d, w) ∈ (varPositions ix 0).filter (·.2 == b.1) := by rw [hf]; simp
-            obtain ⟨hm1, hm2⟩ := List.mem_filter.mp hmem
-            have hw : w = b.1 := by simpa using hm2
-            subst hw
-            refine ⟨d, hf, ?_⟩
-            obtain ⟨_, w', hfind⟩ := hbnd d b.1 hm1
-            rw [find_of_nodup_names bounds b hnd hb] at hfind
-            simp only [Option.some.injEq] at hfind
-            rw [hfind])
-          (fun d v hm => by
-            obtain ⟨_, w, hfind⟩ := hbnd d v hm
-            have hmem := List.mem_of_find?_eq_some hfind
-            have hw := List.find?_some hfind
-            exact Or.inr ⟨_, hmem, by simpa using hw⟩)
-          (fun p hp => by simp at hp)
-          (by simpa using hnd)
-        rw [← hpeel]
-        simp only [hloDenote, hl]
-        exact hmain.symm
+        simp only [hl, Option.map_some] at hr
+        by_cases hrank : ix.length = arr.shape.length
+        · rw [if_pos hrank] at hr
+          cases hax : normalReduceAxes bounds arr.shape shape ix 0 0 with
+          | none => simp [hax] at hr
+          | some axes =>
+            simp only [hax] at hr
+            have haxes := normalReduceAxes_eq bounds arr.shape shape ix 0 0 axes hax
+            subst haxes
+            split at hr
+            · rename_i hc
+              obtain ⟨hnd, hnd2, hall, _⟩ := hc
+              simp only [Option.some.injEq] at hr
+              exact ⟨op, bounds, a, ix, arr, hpeel.symm, hl, hax, hrank, hnd,
+                fun b hb => filter_length_one_of_nodup _ _ hnd2 (hall b hb), hr.symm⟩
+            · cases hr
+        · rw [if_neg hrank] at hr; cases hr
     | _ => simp at hr
   | _ => simp [tryReduce] at hr
+
+/-- every bound of a recognised reduction is `0 ≤ v < s[d]` for the position `d` of its variable -/
+theorem reduce_bounds_form (bounds : List (String × SExpr × SExpr)) (s shape : Shape)
+    (ix : List SExpr)
+    (hax : normalReduceAxes bounds s shape ix 0 0 = some (varPositions ix 0))
+    (hnd : (bounds.map (·.1)).Nodup)
+    (honce : ∀ b ∈ bounds, ((varPositions ix 0).filter (·.2 == b.1)).length = 1) :
+    ∀ b ∈ bounds, ∃ d, (varPositions ix 0).filter (·.2 == b.1) = [(d, b.1)] ∧
+      b.2 = (SExpr.int 0, SExpr.int ((s.getD d 0 : Nat) : Int)) := by
+  intro b hb
+  have hbnd := normalReduceAxes_bounds bounds s shape ix 0 0 _ hax
+  obtain ⟨⟨d, w⟩, hf⟩ := List.length_eq_one_iff.mp (honce b hb)
+  have hmem : (d, w) ∈ (varPositions ix 0).filter (·.2 == b.1) := by rw [hf]; simp
+  obtain ⟨hm1, hm2⟩ := List.mem_filter.mp hmem
+  have hw : w = b.1 := by simpa using hm2
+  subst hw
+  refine ⟨d, hf, ?_⟩
+  obtain ⟨_, w', hfind⟩ := hbnd d b.1 hm1
+  rw [find_of_nodup_names bounds b hnd hb] at hfind
+  simp only [Option.some.injEq] at hfind
+  rw [hfind]
+
+/-- the `ReduceOp` stage is sound -/
+theorem tryReduce_sound (e : SExpr) (shape : Shape) (env : List (String × Arr Val)) (h : HLO)
+    (hr : tryReduce e shape (shapesOf env) = some h) (i : Idx) (hi : inB shape i = true) :
+    (hloDenote h shape env).get i = eval (idxEnv i env) e := by
+  obtain ⟨op, bounds, a, ix, arr, rfl, hl, hax, hrank, hnd, honce, rfl⟩ :=
+    tryReduce_inv e shape env h hr
+  have hbnd := normalReduceAxes_bounds bounds arr.shape shape ix 0 0 _ hax
+  have hmain := reduce_main op arr a env hl ix i shape hi bounds _ hax hrank bounds []
+    (reduce_bounds_form bounds arr.shape shape ix hax hnd honce)
+    (fun d v hm => by
+      obtain ⟨_, w, hfind⟩ := hbnd d v hm
+      have hmem := List.mem_of_find?_eq_some hfind
+      have hw := List.find?_some hfind
+      exact Or.inr ⟨_, hmem, by simpa using hw⟩)
+    (fun p hp => by simp at hp)
+    (by simpa using hnd)
+  simp only [hloDenote, hl]
+  exact hmain.symm
+
+/-! ### a recognised reduction contains no casts -/
+
+theorem normalReduceAxes_entries (bounds : List (String × SExpr × SExpr)) (s shape : Shape) :
+    ∀ (ix : List SExpr) (idim iout : Nat) (axes : List (Nat × String)),
+      normalReduceAxes bounds s shape ix idim iout = some axes → dropCastsList ix = ix
+  | [], _, _, _, _ => rfl
+  | e :: rest, idim, iout, axes, h => by
+    cases e with
+    | var v =>
+      simp only [normalReduceAxes] at h
+      split at h
+      · split at h
+        · obtain ⟨ax', h', _⟩ := Option.map_eq_some_iff.mp h
+          simp [dropCastsList, dropCasts, normalReduceAxes_entries bounds s shape rest _ _ ax' h']
+        · cases h
+      · cases h
+    | idx k =>
+      simp only [normalReduceAxes] at h
+      split at h
+      · simp [dropCastsList, dropCasts, normalReduceAxes_entries bounds s shape rest _ _ axes h]
+      · cases h
+    | _ => simp [normalReduceAxes] at h
+
+theorem dropCasts_nest (op : RedOp) (inner : SExpr) (hin : dropCasts inner = inner) :
+    ∀ (bounds : List (String × SExpr × SExpr)),
+      (∀ b ∈ bounds, ∃ lo hi : Int, b.2 = (SExpr.int lo, SExpr.int hi)) →
+      dropCasts (nest op bounds inner) = nest op bounds inner
+  | [], _ => hin
+  | (v, lo, hi) :: bounds, h => by
+    obtain ⟨l, u, hb⟩ := h (v, lo, hi) (by simp)
+    simp only [Prod.mk.injEq] at hb
+    obtain ⟨rfl, rfl⟩ := hb
+    simp only [nest, dropCasts, dropCasts_nest op inner hin bounds
+      (fun b hb => h b (by simp [hb]))]
+
+theorem tryReduce_noCasts (e : SExpr) (shape : Shape) (env : List (String × Arr Val)) (h : HLO)
+    (hr : tryReduce e shape (shapesOf env) = some h) : dropCasts e = e := by
+  obtain ⟨op, bounds, a, ix, arr, rfl, hl, hax, hrank, hnd, honce, rfl⟩ :=
+    tryReduce_inv e shape env h hr
+  apply dropCasts_nest
+  · simp [dropCasts, normalReduceAxes_entries bounds arr.shape shape ix 0 0 _ hax]
+  · intro b hb
+    obtain ⟨d, _, hb2⟩ := reduce_bounds_form bounds arr.shape shape ix hax hnd honce b hb
+    exact ⟨0, _, hb2⟩
 
 end Raise
 end Pt
